@@ -144,6 +144,7 @@ theorem wfBlock_sound {P : Prog} {callF : CallF} (hcall : CallSafe callF) (nregs
         | fn i => exact Safe.bind (safe_readOpd _ _ _ hu) (fun _ => Safe.ok _)
         | ext nm => exact Safe.bind (safe_readOpd _ _ _ hu) (fun _ => Safe.ok _)
         | bad => exact Safe.bind (safe_readOpd _ _ _ hu) (fun _ => Safe.ok _)
+        | up i => exact Safe.bind (safe_readOpd _ _ _ hu) (fun _ => Safe.ok _)
       | retFeed src n =>
         simp only [wfBlock] at hwf
         simp only [execBlockM]
